@@ -126,12 +126,38 @@ def extract_and_driver(force=False):
     open(stamp, 'w').write(h)
     return {'rebuilt': True}
 
+def repo_path():
+    """The crate the harness is built against: the `path` of harness/Cargo.toml (/repo)."""
+    m = re.search(r'rspack_sources\s*=\s*\{\s*path\s*=\s*"([^"]+)"', open(os.path.join(HARNESS, 'Cargo.toml')).read())
+    return m.group(1)
+
+def repo_digest():
+    root = repo_path()
+    files = [os.path.join(root, f) for f in ('Cargo.toml', 'Cargo.lock') if os.path.exists(os.path.join(root, f))]
+    for d, _, fs in os.walk(os.path.join(root, 'src')):
+        files += [os.path.join(d, f) for f in fs]
+    return sha_files(files)
+
 def cargo_build(release=False):
-    """Always invoked: cargo decides from /repo's current working tree what to rebuild."""
+    """Always invoked: cargo decides from /repo's current working tree what to rebuild.  Cargo's
+    freshness test goes by modification times; a content digest of the crate's sources is kept
+    beside the build and, when it differs from the last build's, the crate's artefacts are
+    removed first - so a source whose content changed under an old timestamp (or a build
+    directory restored from elsewhere) can never leave a stale library behind the harness."""
+    prof = 'release' if release else 'debug'
+    stamp = os.path.join(BUILD, 'repo-%s.stamp' % prof)
+    digest = repo_digest()
+    if not (os.path.exists(stamp) and open(stamp).read() == digest):
+        if os.path.exists(stamp):
+            os.remove(stamp)
+        run(['cargo', 'clean', '--offline', '-p', 'rspack_sources'] + (['--release'] if release else []),
+            cwd=HARNESS, env={'RUSTFLAGS': CFG}, timeout=600, check=False)
     cmd = ['cargo', 'build', '--offline', '--bins']
     if release:
         cmd.append('--release')
     run(cmd, cwd=HARNESS, env={'RUSTFLAGS': CFG}, timeout=3600, what='cargo build harness')
+    os.makedirs(BUILD, exist_ok=True)
+    open(stamp, 'w').write(digest)
     return os.path.join(TARGET, 'release' if release else 'debug')
 
 def coqdep_closure(vfile):
